@@ -17,6 +17,18 @@ int main()
 		if(!ok) bad++;
 		if(!(f(xm) >= f(0.0) && f(xm) >= f(0.5))) { printf("OBSERVED result worse than a starting point  ** VIOLATES the property **\n"); bad++; }
 	}
+	// unimodal objectives: the minimiser is found from any pair of starting abscissae (the bracketing step must use true function values)
+	struct { const char* name; std::function<double(double)> f; double allowed; } objs[] = {
+		{"(x-3)^2", [](double x) { return (x - 3.0) * (x - 3.0); }, 1e-6}, {"cosh(x-3)", [](double x) { return std::cosh(x - 3.0); }, 1e-6},
+		{"sqrt(1+(x-3)^2)", [](double x) { return std::sqrt(1.0 + (x - 3.0) * (x - 3.0)); }, 1e-6}, {"-1/(1+(x-3)^2)", [](double x) { return -1.0 / (1.0 + (x - 3.0) * (x - 3.0)); }, 1e-6}};
+	int shown = 0;
+	for(auto& o : objs) for(double st : {-40.0, -15.0, -7.0, -2.0, 1.0, 2.9, 3.2, 6.0, 11.0, 25.0, 60.0}) for(double h : {1e-3, 1e-2, 0.1, 0.5, 1.0, 3.0}) for(int dir = 0; dir < 2; dir++)
+	{
+		double a = st, b = dir ? st - h : st + h;
+		double xm = Find_Minimum(o.f, a, b, 1e-8);
+		bool ok = std::fabs(xm - 3.0) <= o.allowed && o.f(xm) <= o.f(a) && o.f(xm) <= o.f(b);
+		if(!ok) { if(shown++ < 6) printf("OBSERVED Find_Minimum(%s, %g, %g) = %.12g (minimiser 3)  ** VIOLATES the property **\n", o.name, a, b, xm); bad++; }
+	}
 	printf(bad ? "REPRODUCED %d\n" : "NOT-REPRODUCED\n", bad);
 	return 0;
 }
